@@ -56,4 +56,55 @@ theorem idxTrue_length (rows : List Row) (keep : Row → Bool) (k : Nat) :
   | cons r rs ih => simp only [List.map_cons, idxTrue, List.filter_cons]; cases keep r <;> simp [ih]
 
 
+namespace Ex2
+/-! Witness partition of the open finding C03-shared-str-const-panic: `c1` dictionary-coded (a, b), `c2` packed strings
+    (q0, q1); predicate `c2 = 'a' AND c1 <> 'a'` (the literal 'a' is consumed by InverseDictLookup and by a streaming
+    comparison). -/
+def img0 : ColImg := { secs := [.i64], ops := [], dict := [] }
+def img1 : ColImg := { secs := [.u8, .u64, .u8], ops := [.push 1, .push 2, .dict .u8], dict := [[97], [98]] }
+def img2 : ColImg := { secs := [.u8], ops := [.unpack], dict := [] }
+def part : Part :=
+  { len := 2, cols := [ (.img img0, [.int 0, .int 1]), (.img img1, [.str [97], .str [98]]), (.img img2, [.str [113, 48], .str [113, 49]]) ] }
+def rows : List Row := [[.int 0, .str [97], .str [113, 48]], [.int 1, .str [98], .str [113, 49]]]
+def fp : FP := { i2f := fun _ => 0, encF := fun b _ => b }
+def ty1 : Ty := { decoded := .string, ops := [.push 1, .push 2, .dict .u8], dict := [[97], [98]], isScalar := false }
+def ty2 : Ty := { decoded := .string, ops := [], isScalar := false }
+def col1 : Out := { data := .ints [0, 1], present := none, ty := ty1 }
+def col2 : Out := { data := .strs [[113, 48], [113, 49]], present := none, ty := ty2 }
+def pred : Expr := .and (.cmp .eq (.col 2) (.lit (.str [97]))) (.cmp .ne (.col 1) (.lit (.str [97])))
+
+theorem ref1 : colRef part 1 = .ok col1 := by
+  simp [colRef, part, img1, outputType, outputTypeStep, castToBasic, hasProperty, hasPropertyAux, popN,
+    COp.elementwise, COp.argCount, stage1Data, BT.isNullableVariant, dictIndex, dictIndexAux, col1, ty1]
+theorem ref2 : colRef part 2 = .ok col2 := by
+  simp [colRef, part, img2, outputType, outputTypeStep, castToBasic, hasProperty, hasPropertyAux, ensureProperty,
+    ensurePropertyAux, popN, COp.elementwise, COp.argCount, stage1Data, BT.isNullableVariant, BT.nonNullable, strOf, col2, ty2]
+
+theorem strCol1 : StrCol rows 1 col1 (.dict .u8 [[97], [98]]) := by
+  refine ⟨⟨rfl, rfl, by simp [col1], Or.inl ⟨rfl, ?_⟩⟩, ?_, rfl, rfl, rfl, ?_, ?_⟩
+  · simp [rows, cellAt]
+  · simp [col1, rows, cellAt, StrEnc.data, dictIndex, dictIndexAux]
+  · simp [rows, cellAt]
+  · simp [rows, cellAt, StrEnc.WellEnc, SortedDict, bytesLt]
+theorem strCol2 : StrCol rows 2 col2 .plain := by
+  refine ⟨⟨rfl, rfl, by simp [col2], Or.inl ⟨rfl, ?_⟩⟩, ?_, rfl, rfl, rfl, ?_, ?_⟩
+  · simp [rows, cellAt]
+  · simp [col2, rows, cellAt, StrEnc.data, strOf]
+  · simp [rows, cellAt]
+  · intro r _ s _; trivial
+
+theorem frag : Frag fp part rows pred :=
+  Frag.and _ _ (Frag.atom _ (Atom.strRight .eq 2 [97] col2 _ ref2 strCol2))
+    (Frag.atom _ (Atom.strRight .ne 1 [97] col1 _ ref1 strCol1))
+
+theorem shared : sharedStrLiteral part pred = true := by
+  simp [sharedStrLiteral, strCmpLits, pred, ref1, ref2, col1, col2, ty1, ty2, isDictCodec, BT.nonNullable]
+
+theorem impl : implFilter fp part pred = .error .panic := by
+  have hs := shared
+  simp only [pred] at hs
+  simp only [implFilter, compile, pred, ref1, ref2, hs]
+  rfl
+end Ex2
+
 end LM.C03W
